@@ -48,10 +48,5 @@ U("c12_filter_leftmost_longest", ["C12"], "h_filter", ["C12/filter.c"], ["aho-co
   functions=["match_set_filter_leftmost_longest", "match_excise"], callees={"free": "CBMC built-in"}, native=None, min_obligations=20, timeout=300, cost=20,
   assumptions=[NOFAIL, "input lists are in the order ac_trie_search appends them: by end position, longer first for one end (read from ac_trie_search)"])
 
-# ---- Aho-Corasick search on a real small automaton that needs chained failure links
-U("c12_ac_search_small", ["C12"], "h_acsearch", ["C12/acsearch.c"], ["aho-corasick.c"], plain=True, lib=(), kind="bounded",
-  defines=["-DTN=4"], bounds={"patterns": "{+  +}  ++}", "text bytes=": 4, "alphabet": "{ + } a", "unwind": 300},
-  cbmc_flags=["--unwind", "300", "--unwinding-assertions", "--object-bits", "11"], checks=["--no-standard-checks"],
-  functions=["ac_trie_search", "trie_new", "trie_insert", "trie_node_insert", "ac_trie_prepare", "ac_trie_node_prepare", "match_new", "match_add"],
-  callees={"all": "body"}, native=None, min_obligations=3, timeout=600, cost=60,
-  assumptions=[NOFAIL, "a 3-pattern automaton stands in for the 19-pattern CriticMarkup automaton (same code; the full one did not get through CBMC)", "memory safety of the trie code is not claimed by this unit (standard checks off)"])
+# (a unit of ac_trie_search over a real 6-state automaton built by trie_new(8)/trie_insert/ac_trie_prepare, C12/acsearch.c, did not finish in 600 s --
+#  each state carries a 256-entry transition array; not registered)
